@@ -71,7 +71,9 @@ def parse_url(url: str) -> ParsedURL:
         raise ValueError(f"URL missing hostname: {url}")
 
     # Reject userinfo (per Gemini spec: userinfo portions are forbidden)
-    if parsed.username or parsed.password:
+    # (an "@" in the authority means a userinfo part is present, even if it
+    # is empty or just ":", which urlparse reports as empty username/password)
+    if parsed.username or parsed.password or "@" in parsed.netloc:
         raise ValueError(f"URL must not contain userinfo (user:password): {url}")
 
     # Reject fragments (per Gemini spec: fragments cannot be included)
